@@ -6,6 +6,7 @@ import (
 	"fmt"
 	"sync"
 	"testing"
+	"time"
 
 	"github.com/google/go-tdx-guest/client"
 	labi "github.com/google/go-tdx-guest/client/linuxabi"
@@ -30,9 +31,19 @@ func TestC15Concurrent(t *testing.T) {
 				bad    string
 			}
 			jobs := make([]*job, n)
+			// every other round the fetches go through quote PROVIDERS (each caller its own, answering with its own bytes
+			// after a millisecond or so), and in those rounds all callers may ask for the SAME report data - a verifier's
+			// nonce relayed to several agents: every caller gets its own provider's answer
+			viaProvider := round%2 == 1
+			sameRD := viaProvider && round%4 == 1
+			var common [64]byte
+			s.Fill(common[:])
 			for i := range jobs {
 				j := &job{data: s.Bytes(labi.ReqBufSize), outLen: uint32(1 + s.Intn(labi.ReqBufSize))}
 				s.Fill(j.rd[:])
+				if sameRD {
+					j.rd = common
+				}
 				s.Fill(j.report[:])
 				jobs[i] = j
 			}
@@ -43,7 +54,29 @@ func TestC15Concurrent(t *testing.T) {
 				go func(j *job) {
 					defer wg.Done()
 					<-start
-					for r := 0; r < reps; r++ {
+					for r := 0; r < reps && viaProvider; r++ {
+						p := &slowProvider{bytes: j.data[:j.outLen], pause: time.Duration(200+int(j.outLen)%1800) * time.Microsecond}
+						var got []byte
+						v := gen.Call(func() error {
+							var err error
+							got, err = client.GetRawQuote(p, j.rd)
+							return err
+						})
+						switch {
+						case v.Panicked():
+							j.bad = "crashed: " + v.Panic
+						case !v.Accepted():
+							j.bad = "rejects-good-provider: " + v.String()
+						case p.calls != 1 || p.sawRD != j.rd:
+							j.bad = fmt.Sprintf("provider-not-asked-once-with-the-callers-report-data: %d calls", p.calls)
+						case !bytes.Equal(got, j.data[:j.outLen]):
+							j.bad = "wrong-bytes: the caller got other bytes than its own provider answered with: " + firstDiff(got, j.data[:j.outLen])
+						}
+						if j.bad != "" {
+							return
+						}
+					}
+					for r := 0; r < reps && !viaProvider; r++ {
 						d := &scriptDev{outLen: j.outLen, data: j.data, tdReport: j.report}
 						var got []byte
 						v := gen.Call(func() error {
@@ -100,4 +133,20 @@ func firstWord(s string) string {
 		}
 	}
 	return s
+}
+
+// slowProvider is a supported quote provider that takes a moment to answer.
+type slowProvider struct {
+	bytes []byte
+	pause time.Duration
+	calls int
+	sawRD [64]byte
+}
+
+func (p *slowProvider) IsSupported() error { return nil }
+func (p *slowProvider) GetRawQuote(rd [64]byte) ([]uint8, error) {
+	p.calls++
+	p.sawRD = rd
+	time.Sleep(p.pause)
+	return p.bytes, nil
 }
